@@ -195,10 +195,7 @@ Record row := { r_txt : bytes; r_enclen : nat; r_bin : bytes; r_paylen : nat }.
 Definition mkrow (t : string) (el : nat) (bin : string) (pl : nat) : row :=
   {| r_txt := tx t; r_enclen := el; r_bin := hx bin; r_paylen := pl |}.
 
-(* All rows of /repo's table in its order, except the two rows [SSp]/[GSp] (secp256k1 scalar /
-   element; defective in the snapshot and being repaired, see docs/C07.md): their textual prefixes
-   start with an upper-case S / G and can therefore never match a string that matches a row used
-   by the key glue; the harness checks this side condition on /repo's table on every run. *)
+(* All 43 rows of /repo's table in its order (rows [SSp]/[GSp] as repaired by the fix of defect #29). *)
 Definition table : list row := [
   mkrow "B" 51 "0134" 32;
   mkrow "o" 51 "0574" 32;
@@ -228,6 +225,8 @@ Definition table : list row := [
   mkrow "p2esk" 88 "09303973ab" 56;
   mkrow "sppk" 55 "03fee256" 33;
   mkrow "p2pk" 55 "03b28b7f" 33;
+  mkrow "SSp" 53 "26f888" 32;
+  mkrow "GSp" 54 "055c00" 33;
   mkrow "edsk" 98 "2bf64e07" 64;
   mkrow "edsig" 99 "09f5cd8612" 64;
   mkrow "spsig" 99 "0d7365133f" 64;
